@@ -98,6 +98,20 @@ Definition mon_nonneg (c : amm_case) : bool := bal_nonneg_b (c_post c).
    there), which is how a bookkeeping fault becomes a custody fault; [liq_inv_b] is the decision
    procedure proved complete for [Inv] (C04_monitor_complete), evaluated here on every post-state. *)
 Definition mon_bookkeeping (c : amm_case) : bool := liq_inv_b (c_post c).
+(* "withdrawing every position and claiming every fee always succeeds": whatever else may make a
+   mid-history message fail (amount checks, slippage limits), a claim / withdrawal / increase sent by the
+   owner of existing positions never ends in a run-time panic *)
+Definition owned_by (s : amm) (sender pid : Z) : bool :=
+  match find_pos (a_positions s) pid with Some pos => pos_owner pos =? sender | None => false end.
+Definition owner_exit_op (s : amm) (o : op) : bool :=
+  match o with
+  | ODecrease sender pid _ => owned_by s sender pid
+  | OIncrease sender pid _ _ _ _ => owned_by s sender pid
+  | OClaim sender ids => match ids with [] => false | _ => forallb (owned_by s sender) ids end
+  | _ => false
+  end.
+Definition mon_owner_no_panic (c : amm_case) : bool :=
+  negb (owner_exit_op (c_pre c) (c_op c)) || negb (is_panic (c_res c)).
 (* every open position is stored under an owner string its owner's messages can match *)
 Definition mon_owner_string (k : c02_case) : bool := k_owners_canonical k.
 
@@ -141,6 +155,7 @@ Definition c02_check (k : c02_case) : list Z :=
   flag 8 (mon_nonneg c) ++
   flag 9 (mon_bookkeeping c) ++
   flag 10 (mon_owner_string k) ++
+  flag 11 (mon_owner_no_panic c) ++
   (if solv && ex then []
    else (if trig_f1 k then [101] else []) ++ (if trig_f1_exit k then [102] else [])).
 
